@@ -43,7 +43,7 @@ ASSUMPTIONS = [
 ]
 EXHAUSTIVE_SCOPE = {
   "quick": ("one connection: all 24 orders of {hello, features, desc-stats, barrier outcome} x 3 barrier outcomes x every "
-            "insertion of <= 2 of 5 asynchronous message kinds, each followed by port-status/sendToDPID/EOF; two connections: "
+            "insertion of <= 2 of 6 asynchronous messages (port-status, echo request, packet-in, error with data, error without data, flow-stats reply), each followed by port-status/sendToDPID/EOF; two connections: "
             "all 70 merges of [open, features, barrier, lose] x same/different dpid x 4x4 loss kinds; three connections: all 90 "
             "merges of [handshake, lose] x 4 dpid assignments x 2 loss kinds; EOF / reset at 7 byte offsets inside each of the 6 "
             "messages of a handshake while an announced connection of the same dpid is live"),
@@ -930,5 +930,5 @@ def plan(tier):
     Enum("two-connections", lambda: enum_two(tier), shards=16),
     Enum("three-connections", lambda: enum_three(tier), shards=16),
     Enum("loss-inside-the-handshake", lambda: enum_cut(tier), shards=16),
-    Hyp("histories", lambda: _history(tier), examples=150000, shards=16),
+    Hyp("histories", lambda: _history(tier), examples=300000, shards=16),
   ]
